@@ -231,7 +231,7 @@ func c15StubNewRequest(method, url string, body io.Reader) (*http.Request, error
 	return &http.Request{Method: method, Header: http.Header{}}, nil
 }
 func c15StubWithContext(r *http.Request, ctx context.Context) *http.Request { return r }
-func c15StubHeaderSet(h http.Header, k, v string)                          {}
+func c15StubHeaderSet(h http.Header, k, v string)                           {}
 func c15StubDo(c *http.Client, r *http.Request) (*http.Response, error) {
 	if c15HTTP.doErr {
 		return nil, errC15
